@@ -205,10 +205,11 @@ func renderExpr(b *strings.Builder, e *Node) {
 	case "str":
 		b.WriteString(QuoteBytes(e.Str))
 	case "varx":
+		name := parse.QuoteVariableName(e.Name) // $'+~'
 		if e.Explode {
-			b.WriteString("$@" + e.Name)
+			b.WriteString("$@" + name)
 		} else {
-			b.WriteString("$" + e.Name)
+			b.WriteString("$" + name)
 		}
 	case "list":
 		b.WriteString("[")
